@@ -26,7 +26,7 @@ THEOREMS = {
             "deltaCap_homogeneous"],
     "C18": ["psi_one_params", "psi_one_step", "psi_one_run", "alt_share_eq_fixed_share", "alt_eq_noalt", "alt_ne_noalt_zero_capacity"],
     "C09": ["damage_before_recovery", "wake_ledgers", "damage_after", "arb_after", "finished_when_zero", "finished_no_loss",
-            "linear_range", "convexe_range", "linear_antitone", "convexe_antitone", "linear_zero_at_tau",
+            "linear_range", "convexe_range", "linear_antitone", "convexe_antitone", "linear_zero_at_tau", "linear_zero_after_tau",
             "linear_finished_at_tau", "rounded_range", "rounded_close", "concave_shape"],
     "C10": ["lifecycle_status", "lifecycle_same_event", "post_status", "status_edges", "status_kind_step", "status_timeline_step",
             "status_timeline", "shock_in_force", "pending_invisible", "prefix_event_free"],
